@@ -251,7 +251,7 @@ func (g *gen) applyModel(op Op) {
 		}
 		mb.M[key] = &model.Entry{Val: []byte{}} // content irrelevant for generation
 		g.dirt[mb] = true
-	case "del":
+	case "del", "cdel":
 		if len(op.Path) == 0 || en == nil || en.B != nil {
 			return
 		}
@@ -341,17 +341,18 @@ func (g *gen) cursorCalls(b *model.Bucket, n int) []CurCall {
 func (g *gen) genOp(writable bool) []Op {
 	kind := 0
 	if writable {
-		w := []int{30, 6, 12, 5, 2, 3, 2, 2, 2, 2, 3, 3, 6, 5}
+		w := []int{30, 6, 12, 5, 2, 3, 2, 2, 2, 2, 3, 3, 6, 5, 0, 2, 1, 1}
 		if g.p.CursorHeavy {
 			w[11] = 12
 			w[12], w[13] = 8, 14
+			w[15] = 6
 		}
 		if g.p.BucketHeavy {
 			w[3], w[4], w[5], w[6] = 10, 4, 8, 8
 		}
 		kind = g.t.Pick(w...)
 	} else {
-		kind = []int{1, 7, 8, 10, 11, 14, 0, 2}[g.t.Pick(5, 2, 3, 1, 4, 3, 1, 1)] // mostly reads, a few refused mutators
+		kind = []int{1, 7, 8, 10, 11, 14, 0, 2, 16, 17, 15}[g.t.Pick(5, 2, 3, 1, 4, 3, 1, 1, 1, 1, 1)] // mostly reads, a few refused mutators
 	}
 	switch kind {
 	case 0: // put
@@ -530,6 +531,28 @@ func (g *gen) genOp(writable bool) []Op {
 		if p := g.pickPath(true); p != nil {
 			return []Op{{Kind: "keyn", Path: p}}
 		}
+	case 15: // cursor delete
+		path := g.pickPath(true)
+		if path == nil {
+			return nil
+		}
+		b := g.w.Lookup(toBytes(path))
+		op := Op{Kind: "cdel", Path: path}
+		if k, pad, ok := g.existingKey(b); ok && g.t.Chance(5, 6) {
+			op.Key, op.Pad = k, pad
+		} else if bk := bucketKeys(b); len(bk) > 0 && !g.p.NoErrors {
+			op.Key = bk[0]
+		} else {
+			op.Key, op.Pad = g.freshKey()
+			if op.Pad > 300 {
+				op.Pad = 0
+			}
+		}
+		return []Op{op}
+	case 16:
+		return []Op{{Kind: "feb", Path: g.pickPath(false)}}
+	case 17:
+		return []Op{{Kind: "inspect"}}
 	}
 	return nil
 }
